@@ -215,7 +215,7 @@ def r4_borrows(ctx, F):
                     r"RefCell<.*(Dict<|DictGen|SetData|SetGen)", c.full + " " + " ".join(
                         f.locals.get(x, "") for a in c.args for x in re.findall(r"_\d+", a))):
                 sites.append((f, c))
-    ctx.floor("C07.R4", "panicking borrow_mut on dict/set payload", len(sites), 1)
+    ctx.floor("C07.R4", "panicking borrow_mut on dict/set payload", len(sites), 1, inventory=True)
     for f, c in sites:
         t = top_fn(F, f)
         ctx.check(bool(re.search(r"from_value_unchecked_mut$", t.qpath)), "C07.R4", "borrow_mut:" + t.qpath,
@@ -246,7 +246,7 @@ def r4b_live_borrow(ctx, F):
     cg = CallGraph(F, expand="value")
     PB = re.compile(r"RefCell::<values::types::(dict::value::Dict|set::value::SetData)<'_>>::(borrow|borrow_mut)$")
     src = {f.uid for f in F.fns.values() for c in f.calls if PB.search(c.full)}
-    ctx.floor("C07.R4b", "functions with a panicking borrow of a dict/set payload", len(src), 6)
+    ctx.floor("C07.R4b", "functions with a panicking borrow of a dict/set payload", len(src), 6, inventory=True)
     rev = cg.rev()
     haz = set()
     st = list(src)
@@ -301,7 +301,7 @@ def r4b_live_borrow(ctx, F):
                           % c.name, fn=f, line=c.line)
         if n_inst == 0:
             ctx.ok("C07.R4b", "holder:" + where, "no dispatching call while the mutable borrow is live")
-    ctx.floor("C07.R4b", "functions acquiring DictMut/SetMut", holders, 10)
+    ctx.floor("C07.R4b", "functions acquiring DictMut/SetMut", holders, 10, inventory=True)
 
 
 VALUE_SRC = re.compile(r"(unpack_param|unpack_value|unpack_named_param|UnpackValue|unpack_i32|unpack_inline_int|"
@@ -334,7 +334,7 @@ def r7_negation(ctx, F):
                 ctx.ok("C07.R7", "negation-not-value-derived:" + short_fn(tf.qpath),
                        "operand is layout/profile arithmetic, not a Starlark value")
     ctx.info["overflow_neg_asserts"] = n
-    ctx.floor("C07.R7", "overflow-checked negations inspected", n, 5)
+    ctx.floor("C07.R7", "overflow-checked negations inspected", n, 5, inventory=True)
 
 
 def r6_writer(ctx, F):
